@@ -37,6 +37,15 @@ for pid in sorted(SPACE):
     e = json.load(open(p)) if os.path.exists(p) else {}
     rows.append("| %s | %s | %s states, %s transitions, %s non-trivial, %.0f s (%s) |" % (
         pid, esc(SPACE[pid]), cov.get("states"), cov.get("transitions"), cov.get("distinct_nontrivial"), e.get("wall_s", 0), e.get("tier")))
+trows = ["", "Thorough tier, last complete run of each check (`evidence_thorough/`, copied from a run with `VERIF_OUT` redirected so that",
+         "the quick-tier evidence files stay what `vp check` regenerates):", "", "| Id | states | transitions | exhaustive within the deadline | wall |", "|---|---|---|---|---|"]
+for pid in sorted(SPACE):
+    p = os.path.join(V, "evidence_thorough", pid + ".json")
+    if os.path.exists(p):
+        e = json.load(open(p))
+        c = e["coverage"]
+        trows.append("| %s | %s | %s | %s | %.0f s |" % (pid, c.get("states"), c.get("transitions"), "yes" if c.get("exhaustive") else "no (capped; what was covered is listed in bounds_completed)", e.get("wall_s", 0)))
+thorough_table = "\n".join(trows) + "\n"
 seeded = []
 for f in sorted(glob.glob(os.path.join(V, "seeded", "*", "meta.json"))):
     seeded.append(json.load(open(f)))
@@ -124,6 +133,7 @@ known_findings.json fixed + open findings;  seeded/<id>/  property-breaking chan
 |---|---|---|
 ''' + "\n".join(rows) + r'''
 
+''' + thorough_table + r'''
 Thorough tiers: depth +1 for every Engine-A scenario (two listeners for C19), the whole F_hier family
 (419 k designs: sharing at two depths, depth 3, two children) for C07-C09, C11, C12, names of length
 <= 3 (6 M sibling sets) for C17, all declaration orders of the instantiation graphs for C15, bundled
